@@ -1,4 +1,5 @@
 import ChythonModel.Proofs.C17EquivTop
+import ChythonModel.Gen.C17Cache
 /-!
 # C17 — fingerprints are structure functions with the documented fragment semantics
 
@@ -293,6 +294,46 @@ theorem morgan_bit_set_equivariant (H : TupleHash) (f : Nat → Nat) (m m' : Mol
         cases h; cases h'
         exact active_bits_of_same_members _ _ hs hs'
           (morgan_hash_set_equivariant H f m m' R hwf hwf' lo hi h1 h2 hs hs' hh hh') b
+
+
+/-! ## regenerated facts about the source (Gen/C17Cache.lean): memoisation and defaults -/
+
+open ChythonModel.Gen.C17 in
+/-- the `__dict__` keys under which CachedMethods stores a memoised method of class `cls` -/
+def cacheKeysOf (cls name : String) (decs : List String) : List String :=
+  (if decs.contains "cached_property" || decs.contains "class_cached_property" then
+     [if name.startsWith "__" && !name.endsWith "__" then "_" ++ cls ++ name else name] else []) ++
+  (if decs.contains "cached_method" then ["__cached_method_" ++ name] else []) ++
+  (if decs.contains "cached_args_method" then ["__cached_args_method_" ++ name] else [])
+
+open ChythonModel.Gen.C17 in
+/-- **fingerprint_caches_flushed** — no memoised value of a fingerprint method is in a keep-list of
+    `MoleculeContainer.flush_cache` / `copy` (so no fingerprint result can survive a structure edit or be carried
+    into a copy / transaction backup): fingerprints are functions of the *current* structure -/
+theorem fingerprint_caches_flushed :
+    ∀ r ∈ fingerprintMethods, ∀ k ∈ cacheKeysOf r.1 r.2.1 r.2.2, keepKeys.contains k = false := by decide +kernel
+
+open ChythonModel.Gen.C17 in
+/-- every entry point the model transcribes is still a method of the fingerprint classes -/
+theorem modelled_entry_points_exist :
+    ∀ n ∈ ["linear_fingerprint", "linear_bit_set", "linear_hash_set", "_chains", "_fragments", "morgan_fingerprint",
+           "morgan_bit_set", "morgan_hash_set", "_morgan_hash_dict", "_atom_identifiers"],
+      fingerprintMethods.any (fun r => r.2.1 == n) = true := by decide +kernel
+
+open ChythonModel.Gen.C17 in
+/-- one parameter name has one default value across all entry points (e.g. `linear_fingerprint` and `linear_bit_set`) -/
+theorem defaults_consistent :
+    ∀ d ∈ defaults, ∀ d' ∈ defaults, ∀ p ∈ d.2, ∀ p' ∈ d'.2, p.1 = p'.1 → p.2 = p'.2 := by decide +kernel
+
+open ChythonModel.Gen.C17 in
+/-- the default parameters lie in the documented grid: `1 ≤ min_radius ≤ max_radius`, `length` a power of two,
+    at least one active bit, non-negative bit-pair cap -/
+theorem defaults_in_grid :
+    ∀ d ∈ defaults,
+      (∀ lo ∈ d.2.lookup "min_radius", ∀ hi ∈ d.2.lookup "max_radius", 1 ≤ lo ∧ lo ≤ hi) ∧
+      (∀ l ∈ d.2.lookup "length", 1 ≤ l ∧ (2 : Int) ^ l.toNat.log2 = l) ∧
+      (∀ a ∈ d.2.lookup "number_active_bits", 1 ≤ a) ∧ (∀ b ∈ d.2.lookup "number_bit_pairs", 0 ≤ b) := by
+  decide +kernel
 
 
 end ChythonModel.Props.C17
